@@ -165,7 +165,7 @@ func TestVerif_C12_path(t *testing.T) {
 		nontriv           bool
 	}
 	var cases []pending
-	n := verifh.N(420, 12000)
+	n := verifh.N(420, 6000)
 	for i := 0; i < n; i++ {
 		path := []string{"direct", "tunnel", "tunnel", "h2own", "h2own", "quic"}[r.Intn(6)]
 		c := C()
